@@ -108,7 +108,8 @@ Inductive lpc :=
 | LEmptyExit                    (* saw the queue empty, lock released, token still held *)
 | LStopExit.                    (* saw stopCh closed; token still held *)
 
-(* program counter of the (first) Close call *)
+(* program counter of the Close call whose CompareAndSwap succeeds (the first one); every other
+   Close call skips the if-body and goes straight to the deferred p.wg.Wait(): see [cwait] *)
 Inductive cpc :=
 | CNone        (* not called *)
 | CStopped     (* stopped.CompareAndSwap(false, true) done *)
@@ -126,35 +127,39 @@ Record state := mkState {
   loop : lpc;
   exiting : nat;             (* goroutines that released the token and have not yet run wg.Done *)
   close : cpc;
-  executed : list (item * Z) (* ghost: (item, clock at its pop), newest first *)
+  executed : list (item * Z); (* ghost: (item, clock at its pop), newest first *)
+  cwait : nat;               (* further Close calls (their CompareAndSwap failed) inside the deferred wg.Wait() *)
+  cret : nat                 (* ghost: how many of those have returned *)
 }.
 
 Definition init : state :=
-  mkState [] false false false false 0 LNone 0 CNone [].
+  mkState [] false false false false 0 LNone 0 CNone [] 0 0.
 
 Definition init_at (t : Z) : state :=
-  mkState [] false false false false t LNone 0 CNone [].
+  mkState [] false false false false t LNone 0 CNone [] 0 0.
 
 Definition set_q (s : state) (x : list item) : state :=
-  mkState x (running s) (reset s) (stopped s) (stopch s) (clock s) (loop s) (exiting s) (close s) (executed s).
+  mkState x (running s) (reset s) (stopped s) (stopch s) (clock s) (loop s) (exiting s) (close s) (executed s) (cwait s) (cret s).
 Definition set_running (s : state) (x : bool) : state :=
-  mkState (q s) x (reset s) (stopped s) (stopch s) (clock s) (loop s) (exiting s) (close s) (executed s).
+  mkState (q s) x (reset s) (stopped s) (stopch s) (clock s) (loop s) (exiting s) (close s) (executed s) (cwait s) (cret s).
 Definition set_reset (s : state) (x : bool) : state :=
-  mkState (q s) (running s) x (stopped s) (stopch s) (clock s) (loop s) (exiting s) (close s) (executed s).
+  mkState (q s) (running s) x (stopped s) (stopch s) (clock s) (loop s) (exiting s) (close s) (executed s) (cwait s) (cret s).
 Definition set_stopped (s : state) (x : bool) : state :=
-  mkState (q s) (running s) (reset s) x (stopch s) (clock s) (loop s) (exiting s) (close s) (executed s).
+  mkState (q s) (running s) (reset s) x (stopch s) (clock s) (loop s) (exiting s) (close s) (executed s) (cwait s) (cret s).
 Definition set_stopch (s : state) (x : bool) : state :=
-  mkState (q s) (running s) (reset s) (stopped s) x (clock s) (loop s) (exiting s) (close s) (executed s).
+  mkState (q s) (running s) (reset s) (stopped s) x (clock s) (loop s) (exiting s) (close s) (executed s) (cwait s) (cret s).
 Definition set_clock (s : state) (x : Z) : state :=
-  mkState (q s) (running s) (reset s) (stopped s) (stopch s) x (loop s) (exiting s) (close s) (executed s).
+  mkState (q s) (running s) (reset s) (stopped s) (stopch s) x (loop s) (exiting s) (close s) (executed s) (cwait s) (cret s).
 Definition set_loop (s : state) (x : lpc) : state :=
-  mkState (q s) (running s) (reset s) (stopped s) (stopch s) (clock s) x (exiting s) (close s) (executed s).
+  mkState (q s) (running s) (reset s) (stopped s) (stopch s) (clock s) x (exiting s) (close s) (executed s) (cwait s) (cret s).
 Definition set_exiting (s : state) (x : nat) : state :=
-  mkState (q s) (running s) (reset s) (stopped s) (stopch s) (clock s) (loop s) x (close s) (executed s).
+  mkState (q s) (running s) (reset s) (stopped s) (stopch s) (clock s) (loop s) x (close s) (executed s) (cwait s) (cret s).
 Definition set_close (s : state) (x : cpc) : state :=
-  mkState (q s) (running s) (reset s) (stopped s) (stopch s) (clock s) (loop s) (exiting s) x (executed s).
+  mkState (q s) (running s) (reset s) (stopped s) (stopch s) (clock s) (loop s) (exiting s) x (executed s) (cwait s) (cret s).
+Definition set_cwait (s : state) (w r : nat) : state :=
+  mkState (q s) (running s) (reset s) (stopped s) (stopch s) (clock s) (loop s) (exiting s) (close s) (executed s) w r.
 Definition set_executed (s : state) (x : list (item * Z)) : state :=
-  mkState (q s) (running s) (reset s) (stopped s) (stopch s) (clock s) (loop s) (exiting s) (close s) x.
+  mkState (q s) (running s) (reset s) (stopped s) (stopch s) (clock s) (loop s) (exiting s) (close s) x (cwait s) (cret s).
 
 (* ------------------------------------------------------------------------------------ *)
 (* events *)
@@ -169,6 +174,8 @@ Inductive event :=
 | EvCloseStop                         (* Close: close(p.stopCh) *)
 | EvCloseToken                        (* Close: p.processorRunningCh <- struct{}{} goes through *)
 | EvCloseRet                          (* Close: deferred p.wg.Wait() returns *)
+| EvClose2                            (* another Close call: CompareAndSwap fails, enters the deferred p.wg.Wait() *)
+| EvClose2Ret                         (* ... and that p.wg.Wait() returns *)
 | EvLoop (c : choice) (pick : nat)    (* one step of the loop goroutine *)
 | EvCbRet                             (* executeFn returns *)
 | EvDone                              (* an exiting goroutine runs wg.Done *)
@@ -265,6 +272,13 @@ Definition step (v : variant) (s : state) (e : event) : option state :=
       | CToken, LNone, O => Some (set_close s CReturned)
       | _, _, _ => None
       end
+  | EvClose2 => if stopped s then Some (set_cwait s (S (cwait s)) (cret s)) else None
+  | EvClose2Ret =>
+      (* wg.Wait(): the counter is zero iff no loop goroutine exists or is on its way to wg.Done *)
+      match cwait s, loop s, exiting s with
+      | S w, LNone, O => Some (set_cwait s w (S (cret s)))
+      | _, _, _ => None
+      end
   | EvLoop c pick => loop_step v c pick s
   | EvCbRet => match loop s with LCallback _ => Some (set_loop s LTop) | _ => None end
   | EvDone => match exiting s with S n => Some (set_exiting s n) | O => None end
@@ -280,7 +294,7 @@ Fixpoint run (v : variant) (s : state) (evs : list event) : option state :=
 (* events that need no client and no passage of time *)
 Definition internal (e : event) : bool :=
   match e with
-  | EvLoop _ _ | EvCbRet | EvDone | EvCloseStop | EvCloseToken | EvCloseRet => true
+  | EvLoop _ _ | EvCbRet | EvDone | EvCloseStop | EvCloseToken | EvCloseRet | EvClose2Ret => true
   | _ => false
   end.
 
